@@ -9,6 +9,10 @@ CLAIMED = {
    text="Deductive proof, per function, for all inputs in the stated domain: every obligation generated from the go/ssa form of CheckHtlcForward, canSendHtlc, validateHtlcAmount, CheckHtlcTransit, ExpectedFee, InboundFee.CalcFee and both ComputeFee is discharged by an SMT solver. accept => every policy rule (postconditions over unbounded integers), reject => the named rule is violated (site obligations at every failure constructor, plus coverage of all non-nil returns), and every machine-integer operation is proved wrap-free so the decision agrees with exact arithmetic.",
    note="Domain (A-dom): amounts <= 2^40 msat, base fee < 2^32, outbound rate <= 10^6 ppm, |inbound rate| <= 10^6 ppm (CalcFee itself: all rates for amt <= 922337203685), height+delta sums < 2^32, no AuxTrafficShaper configured. Trusted: go/ssa, the gowp VC generator, the SMT solvers; l.Bandwidth() and failure-message construction are opaque (A-frame); sequential semantics (A-seq). That the switch only forwards over a link whose check returned nil is not part of this check.",
    ref="DESIGN.md §4 C09"),
+ "C17": dict(
+   text="Deductive proof per function: CoopCloseBalance is proved equal to the exact-integer statement of the property (each side's balance, dangling commit fee and 2x330 sat anchors credited to the opener, closing fee charged to the paying party, error iff a result would be negative, sum conserved); CreateCooperativeCloseTx writes an output value only for a party whose balance is at least its own dust limit and the value is that balance; CreateCloseProposal and CompleteCooperativeClose hand exactly the local commitment's balances, fee, dust limits and scripts to those functions (site obligations); the legacy negotiation step functions (feeInAcceptableRange, ratchetFee, calcCompromiseFee) equal their arithmetic specs and move strictly toward the peer's offer.",
+   note="Domain: balances/fees in [0, 21e14] sat. Not decided: byte-identity of both sides' transactions, signature validity, musig2, extra-output closures (loops are havocked, the site obligations still hold), termination of the negotiation over many rounds (only the per-round monotone-approach facts are proved). Trusted: go/ssa, gowp, SMT solvers; A-frame/A-seq.",
+   ref="DESIGN.md §4 C17"),
 }
 
 NOT_APPLICABLE = {
